@@ -464,6 +464,10 @@ func (c *check) variantsOf(prop, value, baseCanon string, full bool, probe func(
 // runA explores one property: unit = index into c.names.
 func (c *check) runA(u int64, ctx *engine.Ctx) {
 	prop := c.names[u]
+	if c.listsOnly { // development aid (VERIF_C08_PARTS=A): the list family alone
+		c.runListFamily(ctx, prop, c.enumerateLight(ctx, prop))
+		return
+	}
 	pi := c.enumerate(ctx, prop)
 	ctx.Count("a:declarations-validated", pi.tried)
 	ctx.Count("a:accepted-values", int64(len(pi.accepted)))
@@ -533,7 +537,9 @@ func (c *check) runA(u int64, ctx *engine.Ctx) {
 				}
 			}
 		}
-	} // the long lists are not needed any more (part c and the shorthands only use the short ones)
+	}
+	c.runListFamily(ctx, prop, pi)
+	// the long lists are not needed any more (part c and the shorthands only use the short ones)
 	pi.accepted, pi.ntok, pi.full = nil, nil, false
 }
 
